@@ -47,8 +47,18 @@ Set(al, v, i, x) == [al EXCEPT ![v][i + 1] = x]
 DownEligible(al, v, i) == IF i = 0 THEN A(al, v, 0) < CU ELSE A(al, v, 1) > 0
 UpEligible(al, v, j)   == IF j = 0 THEN A(al, v, 0) > 0  ELSE A(al, v, 1) < CU
 
-(* sign of delta implied by g_i > g_j (see the derivation in the check's documentation):
-   i=1,j=0: delta < 0   i=0,j=1: delta > 0   i=j=1: delta > 0   i=j=0: delta < 0 *)
+(* Sign of delta implied by the selection rule g_i > g_j, where the signed gradient is
+   g = grad[1] for index 1 and g = -grad[0] for index 0 (find_min_max_gradient):
+     i # j:  delta = (-grad_i - grad_j)/curv
+             i=1, j=0:  -grad1(v1) - grad0(v2) = -(g_i - g_j) < 0   (both variables decrease)
+             i=0, j=1:   -grad0(v1) - grad1(v2) =   g_i - g_j  > 0   (both variables increase)
+     i = j:  delta = (grad_i - grad_j)/curv,  alpha_i -= delta, alpha_j += delta
+             i=j=1:  g_i - g_j > 0      i=j=0:  -(g_i - g_j) < 0
+   (curv > 0 always: non-positive curvature is replaced by tau = 1e-12).  In every case both
+   variables move in the direction their eligibility permits (index 1 of v1 decreases, index 0
+   of v1 increases; the opposite for v2), so a raw step can only overshoot the bound AHEAD of
+   it -- the clipping blocks handle exactly that.  With AnySign = TRUE the model drops this
+   knowledge and shows that the clipping alone keeps the pair inside the box. *)
 SignOK(i, j, delta) ==
     \/ AnySign
     \/ IF (i = 1 /\ j = 0) \/ (i = 0 /\ j = 0) THEN delta < 0 ELSE delta > 0
